@@ -13,8 +13,8 @@ MODES = {'auto': 'MAuto', 'fused': 'MFused', 'blockwise': 'MBlockwise'}
 
 
 def rand_pair(rng, sr, sym, cplx, maxnd=4):
-    nda, ndb = rng.randint(0, maxnd), rng.randint(0, maxnd)
-    ncon = rng.randint(0, min(nda, ndb))
+    nda, ndb = rng.choice([0, 1, 2, 2, 3, 3, 4]), rng.choice([0, 1, 2, 2, 3, 3, 4])
+    ncon = rng.randint(0 if rng.random() < 0.2 else min(1, nda, ndb), min(nda, ndb))
     axa = rng.sample(range(nda), ncon)
     axb = rng.sample(range(ndb), ncon)
     cma = [gen.rand_chargemap(rng, sym) for _ in range(nda)]
@@ -115,6 +115,25 @@ def run(ctx):
                 sym, ring, gen.garray(a, sym, ring), gen.garray(b, sym, ring), gaxes_spec(axa_in, axb_in), MODES[mode],
                 sym, ring, gen.garray(c, sym, ring)))
             meta.append(('tensordot', mode, sym, k))
+        # same contraction again with the contracted pairs listed in another order on
+        # `a` only (b is transposed instead): same arrays, warm fuse cache
+        if len(axa) >= 2:
+            pi = list(range(len(axa))); rng.shuffle(pi)
+            pb = list(range(b.ndim))
+            for kk in range(len(axa)):
+                pb[axb[kk]] = axb[pi[kk]]
+            b2 = b.transpose(tuple(pb))
+            axa2 = [axa[pi[kk]] for kk in range(len(axa))]
+            for mode in ('fused', 'blockwise'):
+                ctx.count()
+                try:
+                    c2 = sr.tensordot(a, b2, axes=(axa2, axb), mode=mode, preserve_array=True)
+                    bad = dense_oracle(a, b2, axa2, axb, c2)
+                except Exception as e:
+                    bad = {'raised': '%s: %s' % (type(e).__name__, e)}
+                if bad is not None:
+                    found.append({'op': 'tensordot (axis pairs relisted, warm cache)', 'mode': mode, 'symmetry': sym, 'a': describe(a),
+                                  'b': describe(b2), 'axes': [axa2, axb], 'earlier_call_axes': [axa_in, axb_in], **bad})
         if k < 3:
             ctx.sample({'op': 'tensordot', 'symmetry': sym, 'axes': [axa_in, axb_in], 'a': describe(a), 'b': describe(b)})
         # scalar return path
